@@ -154,4 +154,42 @@ theorem backToRuneStart_eq (s : Bytes) : ∀ cut : Nat, cut < s.length →
     · rfl
     · exact ih (by omega)
 
+/-! ### round 7: `decodeTimeout`'s digit loop and last-byte index, as values -/
+
+theorem isDigit_iff (b : UInt8) : (b < 48 || b > 57) = !GB.C12.isDigit b := by
+  unfold GB.C12.isDigit
+  rw [Bool.eq_iff_iff]
+  simp only [Bool.or_eq_true, decide_eq_true_eq, Bool.not_eq_true', Bool.and_eq_false_iff, decide_eq_false_iff_not,
+    UInt8.lt_iff_toNat_lt, UInt8.le_iff_toNat_le, gt_iff_lt]
+  have e1 : (48 : UInt8).toNat = 48 := rfl
+  have e2 : (57 : UInt8).toNat = 57 := rfl
+  rw [e1, e2]
+  omega
+
+/-- the loop `for i := i0; …n times… { if s[i] < '0' || s[i] > '9' { return false } }` computes `all isDigit` of that window -/
+theorem checkDigitsLoop_eq (s : Bytes) : ∀ (n i : Nat), i + n ≤ s.length →
+    checkDigitsLoop s n (i : Int) = .ok (((s.drop i).take n).all GB.C12.isDigit) := by
+  intro n
+  induction n with
+  | zero => intro i _; simp [checkDigitsLoop]
+  | succ n ih =>
+    intro i h
+    have hi : i < s.length := by omega
+    unfold checkDigitsLoop
+    rw [goIndex_eq s i hi]
+    simp only [bind, Except.bind]
+    rw [List.drop_eq_getElem_cons hi, List.take_succ_cons, List.all_cons, isDigit_iff]
+    cases hd : GB.C12.isDigit s[i] with
+    | false => simp
+    | true =>
+      simp only [Bool.not_true, Bool.false_eq_true, ↓reduceIte, Bool.true_and]
+      have := ih (i + 1) (by omega)
+      rw [← this]; congr 1
+
+theorem dropLast_eq_take (s : Bytes) : s.dropLast = s.take (s.length - 1) := by
+  rw [List.dropLast_eq_take]
+
+theorem getLast?_eq_index (s : Bytes) (h : 0 < s.length) : s.getLast? = some (s[s.length - 1]'(by omega)) := by
+  rw [List.getLast?_eq_getElem?, List.getElem?_eq_getElem (by omega)]
+
 end GB.C17
